@@ -128,7 +128,7 @@ PROPS["C01"] = {
     "lean_modules": ["MithrilModel.Properties.C01"],
     "theorems": [
         "C01.C01_structural", "C01.C01_index_lt_m", "C01.C01_index_eq_m_counterexample_prefix", "C01.C01_batch",
-        "C01.C01_batch_member_alone", "StmVerify.verifyM_structural", "StmVerify.batchVerify_members",
+        "C01.C01_batch_member_alone", "C01.C01_agg_bad_coeff_unique", "StmVerify.verifyM_structural", "StmVerify.batchVerify_members",
         "StmVerify.verifyM_of_preliminary", "C09.C09_stm_sound", "C08.C08_true_correct",
     ],
     "level_text": "The decision logic of aggregate and batch verification is a Lean model whose acceptance is proved to imply: >= k "
@@ -152,7 +152,7 @@ PROPS["C01"] = {
     "trivial_tags": [],
     "trusted_base": ["rustc/cargo; harness bin c01; blst; serde_json", "random-oracle assumption for clause (6) (individual validity from the aggregate check)"],
     "assumptions": ["num-integer backend; default features (future_snark off)"],
-    "goals_not_proved": ["C01_signatures (agg_bad_coeff_unique): algebraic lemma about random coefficients not formalised; clause (6) is checked by S on every accepted case",
+    "goals_not_proved": ["clause (6) individually: the deterministic core (C01_agg_bad_coeff_unique) is proved, the probabilistic step over the hash-derived coefficients is an assumption; S checks each signature directly on every accepted case",
                          "CBOR / legacy byte re-encodings of aggregates are exercised under C05, not here"],
 }
 
